@@ -116,7 +116,7 @@ def _work(args):
 def run(tier, seed, replay=None):
     assert_repo_import()
     chk = Check("C05", tier, seed)
-    model_ok = chk.proof_stage(["Scope/ScanFile.vo"])
+    model_ok = chk.proof_stage(["Scope/ScanFile.vo", "Scope/WfProofsCerts.vo"])
     per_lang, chunks = (600, 6) if tier == "quick" else (20000, 64)
     jobs = [(lang, seed * 1000 + c, per_lang // chunks) for lang in LC.LANGS for c in range(chunks)]
     model_cases = []
